@@ -21,6 +21,8 @@ PROP_RULES = {
     "C05": {"SelectPriority", "EarliestAccepted", "MailboxPreserved", "TimeoutNotEarly", "AwaitYieldsResult",
             "AwaitResultNotDropped", "FilterIsVerdict", "SelectOpen"},
     "C15": {"NoWorkerCrash", "NoInternalError", "FailureContained", "AwaitersFail", "ResultStable"},
+    "C13": {"RefsUnique"},
+    "C14": {"UseOnlyByOwner", "NeverReachesBackend", "NoCloseWhileOwnerAlive", "ClosedExactlyOnceAtExit"},
     "C06": {"Counted", "NoReachableFreed", "FreeList", "NoOrphan", "ContentStable", "ContentPreserved",
             "RefcountAssertion"},
 }
@@ -31,6 +33,8 @@ MC_INVARIANTS = {
             "AwaitResultNotDropped"],
     "C15": ["NoInternalError", "FailureContained", "AwaitersFail"],
     "C06": ["NoInternalError", "NoLostWakeup", "ExactlyOnce"],
+    "C13": ["RefsUnique", "NoInternalError"],
+    "C14": ["ClosedAtExit", "BackendCallsLegal", "OwnerKnown", "NoInternalError", "NoLostWakeup"],
 }
 # behaviours of the tree before the corresponding `fix:` commits (none once they are in)
 CODE_DEFECTS = json.load(open(os.path.join(common.VERIF, "spec", "code_defects.json")))["defects"]
@@ -252,7 +256,7 @@ def run(prop, tier):
     sched = {s["id"]: s["schedule"] for s in summaries}
     reported = set()
     for v in mine:
-        key = "%s:%s" % (v["run"].split("#")[0], v["rule"])
+        key = "%s:%s" % (re.sub(r"_w\d+$", "", v["run"].split("#")[0]), v["rule"])
         if key in reported:
             continue
         reported.add(key)
